@@ -90,6 +90,10 @@ class AutomatSupport:
         self.machines = {}
         self.on_input = None       # optional hook(it, obj, machine, input, state) for ghost bookkeeping
         self.dispatch_count = 0
+        # False: an input without a row is the failing obligation nodom:...; True: it raises
+        # automat.NoTransition with the state unchanged (what Automat does), so that a contract
+        # can say `raises NoTransition iff ...` for the states that have no row
+        self.notransition_raises = False
 
     def machine_of(self, cd):
         if cd.name not in self.machines:
@@ -131,6 +135,8 @@ class AutomatSupport:
         row = m.table.get((state, name))
         self.dispatch_count += 1
         it.ctx.event("input", name, list(args[1:]), m.cls, state)
+        if row is None and self.notransition_raises:
+            it.raise_("NoTransition", VStr(f"{m.cls}.{name}@{state}"))
         if row is None:
             it.ctx.prove(False, f"nodom:{m.cls}.{name}@{state}",
                          {"kind": "nodom", "definite": True, "machine": m.cls, "input": name, "state": state,
